@@ -20,3 +20,6 @@ let () =
   reg "o.same" (fun t -> let a = t_crs t in let b = t_crs t in ok (DistSolve.same_operator sc a b));
   reg "o.partition" (fun t -> let p = t_crs t in ok (DistSolve.partition_ok sc p));
   reg "o.unaggregated" (fun t -> let p = t_crs t in show_ivec (DistSolve.unaggregated_rows sc p))
+let () =
+  reg "o.isolated" (fun t -> let a = t_crs t in let p = t_crs t in let eps2 = t_q t in
+    ok (DistSolve.isolated_ok sc a p eps2))
